@@ -1,4 +1,4 @@
-from . import sharing, kernel
+from . import sharing, kernel, cursor
 LEVEL = "other"
 EXPLANATION = ("Isolation as an ownership fact: a deep type-structure walk from Scanner/ScannerImpl/FindMatches(Impl) (local ADTs field by "
                "field, std containers through their arguments, dyn Fn resolved to the crate's closures and their captured types) reaches "
@@ -15,3 +15,5 @@ def check(ctx):
         witness.analyze(ctx, "C12.e")
     sharing.analyze(ctx, RULES)
     kernel.analyze(ctx, {"C12.d"})
+    # 'unaffected by peeks': purity of the peek path (shared with C11)
+    cursor.analyze(ctx, {"C11.a"})
